@@ -39,7 +39,32 @@ CHUNK_TIMEOUT_S = 600
 def load(prop):
     if prop not in PROPS:
         raise HarnessError(f"unknown property {prop}")
-    return importlib.import_module(PROPS[prop])
+    mod = importlib.import_module(PROPS[prop])
+    if not getattr(mod.execute, "_guarded", False):
+        mod.execute = _guard(mod.execute)
+    return mod
+
+
+def _guard(execute):
+    """An exception that escapes a world — the library handed the simulated client something
+    it cannot even look at (a list where bytes belong, an object without the attribute every
+    result has) — is a finding about the library under test, reported like any other with a
+    replay file, not a crash of the batch.  Explicit HarnessError stays what it is."""
+    import traceback
+
+    def guarded(case, *a, **kw):
+        try:
+            return execute(case, *a, **kw)
+        except (Violation, HarnessError):
+            raise
+        except Exception as e:
+            tb = traceback.extract_tb(e.__traceback__)
+            where = next((f"{os.path.basename(f.filename)}:{f.lineno}" for f in reversed(tb) if "/sim/" in f.filename), "?")
+            v = Violation("client-could-not-use-result", f"the simulated client failed on what a library call gave it: {type(e).__name__}: {e} (at {where})", event=None, case=case)
+            raise v from e
+
+    guarded._guarded = True
+    return guarded
 
 
 def one_run(mod, master, i, want_sample=False):
